@@ -25,6 +25,23 @@ type TConfig struct {
 	// LibStatic: the relay transport comes from the library's RelayAddressGeneratorStatic bound to
 	// the wildcard address (Address "0.0.0.0") while RelayAddress is what is advertised
 	LibStatic bool `json:"lib_static,omitempty"`
+	// PlainConns: the operator's listener hands out connections that are nothing but a net.Conn
+	// (what a TLS listener or a metering wrapper yields): no ReadFrom / WriteTo short cuts
+	PlainConns bool `json:"plain_conns,omitempty"`
+}
+
+// plainListener wraps the accepted connections so that only the net.Conn methods are visible.
+type plainListener struct{ net.Listener }
+
+type plainConn struct{ net.Conn }
+
+func (l plainListener) Accept() (net.Conn, error) {
+	c, err := l.Listener.Accept()
+	if err != nil {
+		return nil, err
+	}
+
+	return plainConn{c}, nil
 }
 
 // TStep is one scripted action in the TCP world.
@@ -202,6 +219,10 @@ func newTWorld(cfg TConfig) (*TWorld, error) {
 		w.peers = append(w.peers, pl)
 	}
 	w.net.SetOwnerTag("relay")
+	var srvListener net.Listener = l
+	if cfg.PlainConns {
+		srvListener = plainListener{l}
+	}
 	srv, err := turn.NewServer(turn.ServerConfig{
 		Realm:              Realm,
 		LoggerFactory:      w.log,
@@ -217,7 +238,7 @@ func newTWorld(cfg TConfig) (*TWorld, error) {
 			return "", nil, false
 		},
 		ListenerConfigs: []turn.ListenerConfig{{
-			Listener:              l,
+			Listener:              srvListener,
 			RelayAddressGenerator: w.gen,
 			PermissionHandler:     func(_ net.Addr, peerIP net.IP) bool { return !w.cfg.denied(peerIP) },
 		}},
